@@ -7,7 +7,11 @@
   * the first `add` of a key fixes its bytes / height / txcount, later ones can only raise the trusted flag
     (the store ignores a block it already has);
   * `invalid` taints the key: the specification makes no claim about a key once it was marked invalid
-    ("until it is explicitly marked invalid");
+    ("until it is explicitly marked invalid") — EXCEPT when the block is forgotten: BlockInvalid of a block that is still
+    in the write queue (not yet durable) and not trusted removes it from the store ("never write it"), and the
+    specification removes the entry with it, so that a later `add` of the same hash is a NEW entry whose bytes are claimed
+    (the scenario of the repair 6075761f). Whether the block is still queued is read from the store's index record
+    (`forgets`: `ipos = none`), the write buffer being part of the store, not of the durable map;
   * a claim is made for `get` (bytes + latest trusted flag) and for `length` (the size of the stored block).
 -/
 import GocoinV.Model.BlockDB
@@ -35,7 +39,14 @@ def Op.sizeOK : Op → Prop
   | .add _ _ _ _ raw => raw.length ≤ 0xffffffff
   | _ => True
 
-def specStep (sp : Spec) (op : Op) : Spec :=
+/-- BlockInvalid forgets the block instead of flagging it: it is in the index, not trusted, and not yet written -/
+def forgets (s : State) (k : Key) : Bool :=
+  match AL.get s.index k with
+  | some r => !r.trusted && r.ipos.isNone
+  | none => false
+
+/-- one operation on the durable map; `s` is the store's state BEFORE the operation (read only by `forgets`) -/
+def specStep (s : State) (sp : Spec) (op : Op) : Spec :=
   match op with
   | .reopen _ => if sp.isOpen then sp else { sp with isOpen := true }
   | op =>
@@ -53,7 +64,9 @@ def specStep (sp : Spec) (op : Op) : Spec :=
     | .invalid hash =>
       match AL.get sp.m (keyOf hash) with
       | none => sp
-      | some e => { sp with m := AL.set sp.m (keyOf hash) { e with tainted := true } }
+      | some e =>
+        if forgets s (keyOf hash) then { sp with m := AL.del sp.m (keyOf hash) }
+        else { sp with m := AL.set sp.m (keyOf hash) { e with tainted := true } }
     | .close => { sp with isOpen := false }
     | _ => sp
 
@@ -83,10 +96,15 @@ def Claim.holds : Claim → Out → Prop
   | .data b t, out => out = .data b t
   | .len n, out => out = .len n
 
-/-- the claims along a history -/
-def specRun : Spec → List Op → List Claim
-  | _, [] => []
-  | sp, op :: ops => claim sp op :: specRun (specStep sp op) ops
+/-- the claims along a history (the store's state is threaded for `forgets` only) -/
+def specRun (env : Env) : State → Spec → List Op → List Claim
+  | _, _, [] => []
+  | s, sp, op :: ops => claim sp op :: specRun env (step env s op).1 (specStep s sp op) ops
+
+/-- the durable map after a history -/
+def specFinal (env : Env) : State → Spec → List Op → Spec
+  | _, sp, [] => sp
+  | s, sp, op :: ops => specFinal env (step env s op).1 (specStep s sp op) ops
 
 /-- every reply satisfies the claim made for its operation (the two lists have the same length) -/
 def AllHold : List Claim → List Out → Prop
@@ -114,7 +132,7 @@ def claimR (s : State) (sp : Spec) (op : Op) : Claim :=
 /-- the claims along a history, with the model state threaded for `keyLost` -/
 def specRunR (env : Env) : State → Spec → List Op → List Claim
   | _, _, [] => []
-  | s, sp, op :: ops => claimR s sp op :: specRunR env (step env s op).1 (specStep sp op) ops
+  | s, sp, op :: ops => claimR s sp op :: specRunR env (step env s op).1 (specStep s sp op) ops
 
 theorem AllHold.get {cs : List Claim} {os : List Out} (h : AllHold cs os) (i : Nat) (c : Claim) (o : Out)
     (hc : cs[i]? = some c) (ho : os[i]? = some o) : c.holds o := by
